@@ -236,18 +236,28 @@ def _solve_one(payload):
 def discharge(obls, timeout_ms=20000, retry=False, deadline=None):
     """discharge obligations in-process (z3 objects are not picklable; each obligation is
     small, so sequential discharge is fast; thorough tier re-checks with cvc5)."""
+    refuted, undecided = set(), set()
     for ob in obls:
         if deadline is not None and time.time() > deadline:
             ob.status, ob.solver, ob.time_s = "unknown", "budget", 0.0
             continue
+        if ob.name in refuted and not retry:
+            # the clause is the conjunction of its instances (paths, bins): one refuted instance settles it
+            ob.status, ob.solver, ob.time_s = "unknown", "skipped: another instance of this clause is already refuted", 0.0
+            continue
+        budget = timeout_ms if (retry or ob.name not in undecided) else max(timeout_ms // 4, 3000)
         if ob.meta.get("focus"):
             ok, dt0 = prove_focus(ob.meta["focus"], ob.goal)
             if ok:
                 ob.status, ob.solver, ob.time_s = "proved", "z3-focus", dt0
                 ob.meta["lemmas"] = []
                 continue
-        st, solver, dt, model, lem = prove(ob.hyps, ob.goal, timeout_ms=timeout_ms, scale=2 if retry else 1)
+        st, solver, dt, model, lem = prove(ob.hyps, ob.goal, timeout_ms=budget, scale=2 if retry else 1)
         ob.status, ob.solver, ob.time_s = st, solver, dt
+        if st == "refuted":
+            refuted.add(ob.name)
+        elif st != "proved":
+            undecided.add(ob.name)
         ob.meta["lemmas"] = lem
         if model is not None:
             ob.model = model
